@@ -80,7 +80,7 @@ impl EngineResult {
                     }
                     (Some(Value::Number(a)), Value::Number(b)) => {
                         let (x, y) = (a.as_u64().unwrap_or(0), b.as_u64().unwrap_or(0));
-                        self.coverage.insert(k.clone(), json!(if k.starts_with("max_") { x.max(y) } else { x + y }));
+                        self.coverage.insert(k.clone(), json!(if k.starts_with("max_") { x.max(y) } else if k.starts_with("min_") { x.min(y) } else { x + y }));
                     }
                     (Some(Value::Bool(a)), Value::Bool(b)) => {
                         self.coverage.insert(k.clone(), json!(if k.starts_with("exhaustive") { a && *b } else { a || *b }));
